@@ -111,7 +111,12 @@ Theorem C09_frame :
     layers_safe f → save f t m = (o, m') → ¬ under t p → m' !! p = m !! p.
 Proof. exact save_frame. Qed.
 
-(** After a successful save, what lies at and below the target is the tree the font determines
+(** [save] is a function of the font and the file system and of nothing else: there is no state
+    that one save could leave behind for the next.  That the code has none either (no scratch
+    buffer, cache or counter surviving a save - in particular a FAILED save of another font) is what
+    the cross-font histories of the correspondence run check, with the reference save of every case
+    running in a thread of its own.
+    After a successful save, what lies at and below the target is the tree the font determines
     ([tree_of], a function of the font with its store cells read), placed at the target: no
     dependence on what the file system held before, no remains of it. *)
 Theorem C09_tree_function :
